@@ -250,7 +250,10 @@ def find_impl(src, mask, header, lo=0, hi=None, nth=0):
     for m in code_find(src, mask, r"\bimpl\b", lo, hi):
         if depth_at(src, mask, lo, m.start()) != 0:
             continue
-        bo = _body_open_after(src, mask, m.end(), hi)
+        try:
+            bo = _body_open_after(src, mask, m.end(), hi)
+        except Lost:
+            continue
         if src[bo] != "{":
             continue
         # strip comments from header
